@@ -89,7 +89,10 @@ def cases(draw, transports):
             'interleave': draw(st.booleans()),
             # the pending text is re-assigned (`child.buffer = child.buffer`, the idiom for editing or discarding
             # it) after every read: the text buffer is not the byte stream, the decoder state must survive
-            'setbuf': draw(st.booleans())}
+            'setbuf': draw(st.booleans()),
+            # popen: the child has written everything and is gone before the first read (its pieces wait in the
+            # reader thread's queue): the end of the process is not the end of the stream
+            'after_exit': draw(st.booleans())}
 
 
 def reference(case):
@@ -222,6 +225,8 @@ def run_popen(case, T):
                                  maxread=(case['maxread'] if case['mode'] == 'maxread' else 2000), **_mk_kwargs(case))
     try:
         child.logfile_read = log
+        if case.get('after_exit'):
+            child.proc.wait()
         with guard('popen transport', allow=(EOF, TIMEOUT)):
             child.expect(EOF)
         return child.before, log
